@@ -134,6 +134,17 @@ func NewProtocolManager(minPeers int, networkId uint64, bridge ChainBridge) *Pro
 	return manager
 }
 
+// statesOwnHash reports whether the hash a received momentum states is the hash of its fields (height and
+// parent are among them). The genesis momentum travels without its content (see peer.SendBlocks): it is
+// known by its hash.
+func (pm *ProtocolManager) statesOwnHash(m *nom.Momentum) bool {
+	if m.Height == 1 {
+		_, _, genesis := pm.chainman.Status()
+		return m.Hash == genesis
+	}
+	return m.ComputeHash() == m.Hash
+}
+
 func (pm *ProtocolManager) removePeer(id string) {
 	// Short circuit if the peer was already removed
 	peer := pm.peers.Peer(id)
@@ -376,6 +387,11 @@ func (pm *ProtocolManager) handleMsg(p *peer) error {
 		for i, block := range blocks {
 			block.Momentum.EnsureCache()
 			hashes[i] = block.Momentum.Hash
+			// downloader and fetcher file a momentum under the hash it states and under the height it states:
+			// only a momentum that hashes to its stated hash is the one that was asked for
+			if !pm.statesOwnHash(block.Momentum) {
+				return errResp(ErrDecode, "momentum %d of %v does not hash to its stated hash", i, msg)
+			}
 		}
 
 		// Filter out any explicitly requested blocks, deliver the rest to the downloader
